@@ -391,3 +391,29 @@ Definition time.TimeNow: val :=
 
 Definition rand.RandomUint64: val :=
   rec: "rand.RandomUint64" <> := ArbitraryInt #().
+
+(* the disk FFI (Perennial goose_lang/ffi/disk.v): blocks of 4096 bytes; Read returns a fresh slice *)
+Definition disk.BlockSize: val := #4096.
+
+Definition disk.Get: val :=
+  rec: "disk.Get" <> := #().
+
+Definition disk.Read: val :=
+  rec: "disk.Read" "a" :=
+    let: "p" := DiskRead "a" in
+    ("p", #4096, #4096).
+
+Definition disk.ReadTo: val :=
+  rec: "disk.ReadTo" "a" "b" :=
+    let: "p" := DiskRead "a" in
+    MemCpy_rec byteT (slice.ptr "b") "p" #4096.
+
+Definition disk.Write: val :=
+  rec: "disk.Write" "a" "b" :=
+    DiskWrite "a" (slice.ptr "b").
+
+Definition disk.Size: val :=
+  rec: "disk.Size" <> := DiskSize #().
+
+Definition disk.Barrier: val :=
+  rec: "disk.Barrier" <> := #().
